@@ -517,6 +517,23 @@ func (w *World) Sync(id string, out, rot int) bool {
 	return rel > 0 || len(newp) > 0 || broken
 }
 
+// IdleHands: n hands without a bust-out; after each, every table that is still
+// there reports (SyncState(t, 0)) and carries out what it is told.
+func (w *World) IdleHands(n, rot int) {
+	w.Facts["idle-hands"] = true
+	for h := 0; h < n && w.V == nil && !w.Facts["aborted"]; h++ {
+		for _, id := range w.TableIDs() {
+			if _, ok := w.Tables[id]; !ok {
+				continue
+			}
+			w.Sync(id, 0, rot)
+			if w.V != nil || w.Facts["aborted"] {
+				return
+			}
+		}
+	}
+}
+
 // Settle: sweeps of SyncState(t, 0) over all tables until a sweep is quiet.
 // order returns the order of a sweep.
 func (w *World) Settle(order func(ids []string, sweep int) []string) {
@@ -529,8 +546,10 @@ func (w *World) Settle(order func(ids []string, sweep int) []string) {
 	}
 	sweeps := 0
 	moves := 0
+	idle, maxIdle := 0, 0
 	for ; ; sweeps++ {
 		moved := false
+		before := w.sizes()
 		for _, id := range order(w.TableIDs(), sweeps) {
 			if _, ok := w.Tables[id]; !ok {
 				continue
@@ -546,6 +565,20 @@ func (w *World) Settle(order func(ids []string, sweep int) []string) {
 		if !moved {
 			break
 		}
+		// a sweep that moved players and left every table (and the queue) exactly as
+		// full as it found them has brought the tournament no nearer to rest
+		if w.sizes() == before {
+			idle++
+			if idle > maxIdle {
+				maxIdle = idle
+			}
+			if idle >= 3 {
+				w.fail("C20", "moves-without-progress", "%d sweeps in a row moved players and left every table and the queue exactly as full as before (%s)", idle, before)
+				return
+			}
+		} else {
+			idle = 0
+		}
 		if sweeps >= bound {
 			w.fail("C20", "does-not-settle", "%d sweeps over %d tables and the regulator still asks for moves", sweeps+1, len(w.Tables))
 			return
@@ -559,4 +592,17 @@ func (w *World) Settle(order func(ids []string, sweep int) []string) {
 		w.Facts["settled-with-moves"] = true
 	}
 	w.St.Class(fmt.Sprintf("sweeps-to-settle:%d", sweeps))
+	if maxIdle > 0 {
+		w.St.Class(fmt.Sprintf("sweeps-without-progress-in-a-row:%d", maxIdle))
+	}
+}
+
+// sizes: how full every table and the waiting queue are (by table name).
+func (w *World) sizes() string {
+	var b strings.Builder
+	for _, id := range w.TableIDs() {
+		fmt.Fprintf(&b, "%s:%d ", id, len(w.Tables[id]))
+	}
+	fmt.Fprintf(&b, "queue:%d", len(w.Queue))
+	return b.String()
 }
